@@ -120,9 +120,14 @@ class C01(Check):
         SM.install(ctx)
 
     def contracts(self):
-        return [SendMessageC01Reg(False, False, id_mode="given"),
-                SendMessageC01Reg(False, False, id_mode="uuid"),
-                SendMessageC01Reg(True, True, id_mode="given")]
+        cs = [SendMessageC01Reg(False, False, id_mode="given"),
+              SendMessageC01Reg(False, False, id_mode="uuid"),
+              SendMessageC01Reg(True, True, id_mode="given")]
+        if self.tier == "thorough":       # every combination of token / callback / id source
+            cs += [SendMessageC01Reg(True, False, id_mode="given"), SendMessageC01Reg(False, True, id_mode="given"),
+                   SendMessageC01Reg(True, True, id_mode="uuid"), SendMessageC01Reg(True, False, id_mode="uuid"),
+                   SendMessageC01Reg(False, True, id_mode="uuid")]
+        return cs
 
     def loop_invariants(self):
         return {(AWAIT_KEY, 0): SM.await_loop_invariant("C01")}
